@@ -169,6 +169,15 @@ Proof. intros W D; unfold refines; cbn [step gstep]. red2.
   - destruct (noteZ_step _ W1 D1) as (A2 & W2 & D2). rsplit; auto. rewrite A2, A; reflexivity.
   - destruct (noteY_step _ W1 D1) as (A2 & W2 & D2). rsplit; auto. rewrite A2, A; reflexivity. Qed.
 
+Fact ws_stage_ge w : 4 <= ws_stage w. Proof. destruct w; simpl; lia. Qed.
+Fact ref_UpdSub cf s w ss : WF s -> Dyn s -> refines cf s (UpdSub w ss).
+Proof. intros W D; unfold refines; cbn [step gstep]. guard_eq. destruct (negb (has_sub s ss && sub_ok w)); red2; [rsplit; auto|].
+  destruct (inval_step s (ws_stage w) W D (ws_stage_ge w)) as (A & W1 & D1).
+  destruct w; cbn [g_clear_roots fold_left]; try (rsplit; auto; fail).
+  - destruct (noteQ_step _ W1 D1) as (A2 & W2 & D2). rsplit; auto. rewrite A2, A; reflexivity.
+  - destruct (noteU_step _ W1 D1) as (A2 & W2 & D2). rsplit; auto. rewrite A2, A; reflexivity.
+  - destruct (noteZ_step _ W1 D1) as (A2 & W2 & D2). rsplit; auto. rewrite A2, A; reflexivity. Qed.
+
 Fact ref_SetDV cf s k v : WF s -> Dyn s -> runtime s (SetDV k v) = true -> refines cf s (SetDV k v).
 Proof. intros W D R; unfold refines; cbn [step gstep]. guard_eq. destruct (negb (has_sub s (fst k) && has_dv s k)); red2; [rsplit; auto|].
   cbn [runtime] in R. b2p. rewrite gget_dv_abs. cbn [abs_dv gd_auto gd_inval].
@@ -278,4 +287,5 @@ Proof. intros W D R L. destruct o; try discriminate R.
   - apply ref_SetDVUpd; auto.
   - apply ref_AutoUpdate; auto.
   - apply ref_GetCE; auto.
-  - apply ref_Query; auto. Qed.
+  - apply ref_Query; auto.
+  - apply ref_UpdSub; auto. Qed.
